@@ -263,6 +263,14 @@ recv_version = Spec(
          lambda c: z3.And(c.new('_banner_lines') >= c.old('_banner_lines'),
                           z3.Or(c.new('_banner_lines') <= MAX_BANNER_LINES, closed(c),
                                 c.new('_banner_lines') == c.old('_banner_lines')))),
+        # (3) EVERY line consumed before the version line counts against the limit - empty ones included: a
+        # consumed line that is not accepted as the version either adds exactly one to _banner_lines or ends in
+        # a close that stops the pump.  With the clause below: at most 1024 lines (<= 8192 bytes each) are ever
+        # skipped before the connection is closed
+        ('every-line-before-the-version-counts',
+         lambda c: z3.Implies(z3.And(consumed(c) >= 1, z3.BoolVal(len(c.events('send_kexinit')) == 0)),
+                              z3.Or(c.new('_banner_lines') == c.old('_banner_lines') + 1,
+                                    z3.And(closed(c), z3.Not(c.result))))),
         ('too-many-banner-lines-stop-the-pump',
          lambda c: z3.Implies(z3.And(c.new('_banner_lines') > MAX_BANNER_LINES,
                                      c.new('_banner_lines') > c.old('_banner_lines')),
